@@ -145,6 +145,12 @@ func (c09) Run(c *Ctx, csAny any) Outcome {
 		}
 	}
 
+	neverRejects := true
+	for _, st := range allStmts(cs.Prog.Body) {
+		if st.Op == "repeat" || (st.Op == "draw" && !st.Gen.NeverRejects()) {
+			neverRejects = false
+		}
+	}
 	x := NewInterp(cs.Prog)
 	obs := RunCheck(cs.Cfg, x.Prop)
 	x.Finish()
@@ -204,6 +210,12 @@ func (c09) Run(c *Ctx, csAny any) Outcome {
 			valid++
 		default:
 			skipped++
+			if inv.End == "lib" && neverRejects {
+				// the library declared the test case invalid, but nothing in it can be: no Skip, no filter, no
+				// distinctness or length limit. Whether a test case counts is decided by that test case alone.
+				out.Viol = violf("C09:valid-case-not-counted", "N=%d: random test case %d was rejected by the library as invalid although the property only draws from generators that accept every bitstream (%d invocations so far, %d counted as valid)", N, i-k, i, valid)
+				return out
+			}
 		}
 	}
 
